@@ -43,18 +43,31 @@ def load_compiler():
     return _compiler
 
 
-def compile_emb(text):
+def compile_files(files, entry="m.emb"):
+    """{file: header text} for entry and everything it imports, or (None, message)."""
     c = load_compiler()
+
+    def reader(name):
+        return (files[name], None) if name in files else (None, ["not found"])
+
+    headers = {}
     try:
-        ir, _dbg, errors = c["glue"].parse_emboss_file("m.emb", lambda name: (text, None) if name == "m.emb" else (None, ["not found"]))
-        if errors:
-            return None, c["error"].format_errors(errors, {"m.emb": text})
-        header, errors = c["header_generator"].generate_header(ir)
-        if errors:
-            return None, c["error"].format_errors(errors, {"m.emb": text})
-        return header, None
+        for name in [entry] + [n for n in sorted(files) if n != entry]:
+            ir, _dbg, errors = c["glue"].parse_emboss_file(name, reader)
+            if errors:
+                return None, c["error"].format_errors(errors, files)
+            header, errors = c["header_generator"].generate_header(ir)
+            if errors:
+                return None, c["error"].format_errors(errors, files)
+            headers[name + ".h"] = header
+        return headers, None
     except Exception as e:  # a compiler crash is C16's subject; here the module is just skipped
         return None, f"compiler exception {type(e).__name__}: {e}"
+
+
+def compile_emb(text):
+    headers, err = compile_files({"m.emb": text})
+    return (headers["m.emb.h"], None) if headers else (None, err)
 
 
 def build_flags(build):
@@ -68,12 +81,12 @@ def build_flags(build):
 def build_driver(module, want, build, workdir):
     """Returns (binary or None, stage, message)."""
     os.makedirs(workdir, exist_ok=True)
-    emb = D.render_module(module)
-    header, err = compile_emb(emb)
-    if header is None:
+    headers, err = compile_files(D.render_files(module))
+    if headers is None:
         return None, "rejected", err
-    with open(os.path.join(workdir, "m.emb.h"), "w") as f:
-        f.write(header)
+    for hname, header in headers.items():
+        with open(os.path.join(workdir, hname), "w") as f:
+            f.write(header)
     src = drv.DriverGen(module, want, aligned=build.get("aligned", 0)).generate("m.emb.h")
     with open(os.path.join(workdir, "driver.cc"), "w") as f:
         f.write(src)
@@ -516,7 +529,7 @@ def run_one(task):
         out["rejected"] = info.get("message", "")[:500]
     if own or index < 2:
         out["module_pickle"] = base64.b64encode(pickle.dumps(module)).decode()
-        out["emb"] = D.render_module(module)
+        out["emb"] = "\n".join(f"# ---- {n}\n{t}" for n, t in sorted(D.render_files(module).items()))
         out["scenarios"] = scenarios
     return out
 
